@@ -128,9 +128,11 @@ structure CodecImpl where
   /-- decoding needs the image parameters and the frame shape; the result is the values in C order -/
   dec : Params → (rows cols samples : Nat) → List Nat → Except ErrKind (List Int)
 
-/-- the law a *lossless* codec obeys: whatever it accepts (when told the frame's true shape) it gives back -/
-def CodecImpl.Lossless (c : CodecImpl) : Prop :=
-  ∀ p x bytes, c.enc p x.rows x.cols x.spp x = .ok bytes → c.dec p x.rows x.cols x.spp bytes = .ok x.data
+/-- the law of a codec that is lossless **on a region `D` of parameter sets**: whatever it accepts there (when told the
+    frame's true shape) it gives back.  A law over all parameter sets cannot be met by the real codecs behind routes 3-5
+    (lossy syntaxes share the codec; pydicom's RLE codec breaks it for narrow stored bits), so the region is explicit. -/
+def CodecImpl.LosslessOn (c : CodecImpl) (D : Params → Prop) : Prop :=
+  ∀ p x bytes, D p → c.enc p x.rows x.cols x.spp x = .ok bytes → c.dec p x.rows x.cols x.spp bytes = .ok x.data
 
 /-! ### encode_frame -/
 
@@ -182,6 +184,9 @@ def slice {α} (l : List α) (a b : Int) : Except ErrKind (List α) :=
 def convertsColour (pi : String) (samples : Nat) : Bool :=
   samples == 3 && (pi == "YBR_FULL" || pi == "YBR_FULL_422")
 
+/-- pydicom refuses a data set whose Rows or Columns is 0 or above 65535 (VR US; `'Rows' value of '70000' is invalid`) -/
+def shapeInRange (rows cols : Nat) : Bool := decide (1 ≤ rows ∧ rows ≤ 65535 ∧ 1 ≤ cols ∧ cols ≤ 65535)
+
 /-- route 2: pydicom on a one-frame data set with native pixel data.  Fewer bytes than
     `rows*cols*samples*bits/8` are refused; one padding byte is tolerated; longer data is outside the
     model (pydicom then guesses a number of frames) and reported as `.other`. -/
@@ -190,7 +195,8 @@ def pydicomNative (conv : List Int → List Int) (p : Params) (rows cols samples
   let dt ← decodedDType p.bitsAllocated p.pixelRepresentation
   let n := rows * cols * samples
   let want := n * dt.itemsize
-  if bytes.length < want then .error .value
+  if shapeInRange rows cols = false then .error .value
+  else if bytes.length < want then .error .value
   else if bytes.length > want + 1 then .error .other
   else
     let vals := decodeCells dt.itemsize (p.pixelRepresentation == 1) p.bitsStored.toNat n bytes
@@ -208,6 +214,7 @@ def decodeFrame (c : CodecImpl) (conv : List Int → List Int) (p : Params) (row
     if bits.length = rows * cols * samples then .ok (bits.map (fun b => if b then 1 else 0))
     else .error .value
   else if route = 2 then pydicomNative conv p rows cols samples bytes
+  else if shapeInRange rows cols = false then .error .value
   else do
     let vals ← c.dec p rows cols samples bytes
     .ok (if convertsColour p.pi samples then conv vals else vals)
@@ -215,10 +222,12 @@ def decodeFrame (c : CodecImpl) (conv : List Int → List Int) (p : Params) (row
 /-- what pydicom itself makes of the bytes as a one-frame image with 1-bit native pixel data -/
 def pydicomOneBit (rows cols samples : Nat) (bytes : List Nat) : Except ErrKind (List Int) :=
   let n := rows * cols * samples
-  if 8 * bytes.length < n then .error .value
+  if shapeInRange rows cols = false then .error .value
+  else if 8 * bytes.length < n then .error .value
   else .ok (((unpack bytes).take n).map (fun b => if b then 1 else 0))
 
-/-! ### specification side (written from PS3.5, not from the code) -/
+/-! ### specification side: the acceptance relation of `encode_frame` flattened per syntax family (`AcceptSpec`, follows
+    the code where the code has rules of its own) and what PS3.5 lets a pixel data element represent (`Representable`) -/
 
 def monochromePIs : List String := ["MONOCHROME1", "MONOCHROME2", "PALETTE COLOR"]
 def nativeSyntaxes : List String := ["1.2.840.10008.1.2", "1.2.840.10008.1.2.1"]
@@ -273,8 +282,13 @@ def monoPI (pi : String) : Prop := pi = "MONOCHROME1" ∨ pi = "MONOCHROME2" ∨
 def knownPI (pi : String) : Prop :=
   monoPI pi ∨ pi = "RGB" ∨ pi = "YBR_FULL" ∨ pi = "YBR_FULL_422" ∨ pi = "YBR_PARTIAL_420" ∨ pi = "YBR_ICT" ∨ pi = "YBR_RCT"
 
+/-- the array is `(rows, columns)` or `(rows, columns, samples)` and Rows / Columns (VR US, not 0) can describe it -/
+def ShapeOK (q : Req) : Prop :=
+  (q.ndim = 2 ∨ q.ndim = 3) ∧ 1 ≤ q.rows ∧ q.rows ≤ 65535 ∧ 1 ≤ q.cols ∧ q.cols ≤ 65535
+
 /-- checks common to all transfer syntaxes -/
 def Common (q : Req) : Prop :=
+  ShapeOK q ∧
   (q.ndim > 2 → q.planar = some 0 ∨ q.planar = some 1) ∧ (q.pr = 0 ∨ q.pr = 1) ∧ knownPI q.pi ∧ 1 ≤ q.bs ∧ q.bs ≤ q.ba
 
 /-- smallest and largest sample lie in the range of `bs` stored bits (two's complement when `pr = 1`) -/
@@ -310,7 +324,8 @@ def JpegFamilyOK (q : Req) (r : Int) : Prop :=
   ((q.spp = 1 ∧ q.planar = none ∧ monoPI q.pi ∧ (q.ba = 8 ∨ q.ba = 16 ∨ (q.ts = j2kLossless ∧ q.ba = 1))) ∨
    (q.spp = 3 ∧ q.planar = some 0 ∧ (q.ba = 8 ∨ q.ba = 16) ∧ q.pi = requiredPI q.ts)) ∧
   ((q.ts = j2k ∨ q.ts = j2kLossless) → 32 ≤ q.rows ∧ 32 ≤ q.cols) ∧
-  ((q.ts = j2kLossless ∧ q.ba = 1 ∧ (q.dtypeName ≠ "bool" → q.arrayMax ≤ 1) ∧ r = 4) ∨
+  ((q.ts = j2kLossless ∧ q.ba = 1 ∧
+      (q.dtypeName ≠ "bool" → (q.kind = "u" ∨ q.kind = "i") ∧ 0 ≤ q.arrayMin ∧ q.arrayMax ≤ 1) ∧ r = 4) ∨
    (¬ (q.ts = j2kLossless ∧ q.ba = 1) ∧ r = 5))
 
 def AcceptSpec (q : Req) (r : Int) : Prop :=
@@ -342,9 +357,19 @@ def FitsStored (p : Params) (x : Frame) : Prop :=
     if p.pixelRepresentation = 1 then -(2 : Int) ^ (p.bitsStored.toNat - 1) ≤ v ∧ v < (2 : Int) ^ (p.bitsStored.toNat - 1)
     else 0 ≤ v ∧ v < (2 : Int) ^ p.bitsStored.toNat
 
-/-- the law of an encoder that validates its input against the parameters it is GIVEN (pydicom's encoders do):
-    it accepts only frames whose samples fit the stored bits -/
-def CodecImpl.Validating (c : CodecImpl) : Prop :=
-  ∀ p x bytes, c.enc p x.rows x.cols x.spp x = .ok bytes → FitsStored p x
+/-- the law of an encoder that validates its input against the parameters it is GIVEN (pydicom's encoders do), on a
+    region `D` of parameter sets: there it accepts only frames whose samples fit the stored bits -/
+def CodecImpl.ValidatingOn (c : CodecImpl) (D : Params → Prop) : Prop :=
+  ∀ p x bytes, D p → c.enc p x.rows x.cols x.spp x = .ok bytes → FitsStored p x
+
+/-- the lossless encapsulated syntaxes for which an encoder is installed and exercised by the correspondence -/
+def encoderRegion (p : Params) : Prop := p.ts = rle ∨ p.ts = jpegLs
+
+/-- **where the real codecs are lossless**, as observed by the correspondence on exactly this region: JPEG-LS Lossless,
+    and RLE Lossless unless a whole byte of the allocated cell carries no stored bit (`bits stored <= bits allocated - 8`:
+    there pydicom 3.0.2 produces undecodable RLE data, open finding C07-rle-narrow-stored).  JPEG 2000 Lossless is not
+    in the region: no encoder is installed, nothing is observed. -/
+def codecRegion (p : Params) : Prop :=
+  (p.ts = rle ∧ p.bitsAllocated - 8 < p.bitsStored) ∨ p.ts = jpegLs
 
 end HdVerif.Codec
